@@ -123,12 +123,20 @@ def run(chk):
             created, err = export(raw, os.path.join(work, "t"))
             recs.append(dict(created=created, err=err or ""))
             meta.append(batch)
+        # siblings of the output directory whose names begin with the output directory's own name ("out" -> "outside", "out2", "out.bak"):
+        # a containment test by string prefix would accept them
+        batch = [(["..", "outside", "S"], ["m"]), (["a", "b", "..", "..", "..", "outer", "D"], ["m"]), (["..", "out2"], ["m"]), (["..", "out.bak", "x"], ["m"]),
+                 (["..", "out", "inside"], ["m"]), (["..", "..", "sbx", "out", "again"], ["m"]), (["c"], ["..", "..", "outside", "m"])]
+        raw = make_dex(batch)
+        created, err = export(raw, os.path.join(work, "t"))
+        recs.append(dict(created=created, err=err or ""))
+        meta.append(batch)
         # random names with other path tricks
         for _ in range(10 if quick else 200):
             batch = []
             for _ in range(8):
                 k = rnd.randrange(1, 5)
-                cls = [rnd.choice(["a", "b", "..", ".", "", "...", " ", "~", "c d", "é", LONG, ".. ", "..\t", " ..", ". ", "..\n"]) for _ in range(k)]
+                cls = [rnd.choice(["a", "b", "..", ".", "", "...", " ", "~", "c d", "é", LONG, ".. ", "..\t", " ..", ". ", "..\n", "..", "out", "outside", "sbx"]) for _ in range(k)]
                 meth = [rnd.choice(["m", "..", "<init>", "x y", "."]) for _ in range(rnd.randrange(1, 3))]
                 if "/".join(cls):
                     batch.append((cls, meth))
